@@ -1,6 +1,8 @@
 import OrsoVerif.Model.GroupBy
 import OrsoVerif.Lemmas.GroupBy
 import OrsoVerif.Generated.GroupBy
+import OrsoVerif.Model.GroupByCode
+import OrsoVerif.Lemmas.GroupByCode
 /-!
 # C12 — GroupBy aggregates equal a reference partition-and-fold
 
@@ -332,5 +334,367 @@ example :
     (run { columns := ["k", "v"], rows := [[.int (-1), .int 4], [.int (-2), .int 1], [.int (-1), .int 6]] }
         ["k", "k"] [(.sum, "v"), (.max, "v"), (.sum, "v")]).toOption
       = some (["SUM(v)", "MAX(v)", "k"], [[.int 10, .int 6, .int (-1)], [.int 1, .int 1, .int (-2)]]) := by decide
+
+/-! ## What "beyond output order" and "as usually defined" mean, made precise -/
+
+/-- **Output order.**  The output rows come in the order in which their keys first occur in the
+frame; this is the only thing about the result that depends on the order of the input rows
+(`perm_invariant`, `run_perm_invariant`). -/
+theorem output_order (keyOf : ρ → κ) (cell : ρ → String → Option Int) (rows : List ρ)
+    (reqs : List Req) (h : reqs ≠ []) :
+    (aggregate keyOf cell rows reqs).map (·.1) = groupKeys keyOf rows := by
+  rw [aggregate_spec keyOf cell rows reqs h]
+  simp [reference, List.map_map, Function.comp_def]
+
+/-- **Row order, at the level of frames**: for two frames with the same columns whose rows are a
+permutation of each other, `group_by(keys).aggregate(reqs)` has the same header, the output rows of
+one are a permutation of the output rows of the other (same keys, same aggregate values), and a
+refused key column is refused for both. -/
+theorem run_perm_invariant (fr fr' : Frame) (hc : fr.columns = fr'.columns) (hp : fr.rows.Perm fr'.rows)
+    (keyCols : List String) (reqs : List Req) (h : reqs ≠ []) :
+    match run fr keyCols reqs, run fr' keyCols reqs with
+    | .ok r1, .ok r2 => r1.1 = r2.1 ∧ r1.2.Perm r2.2
+    | .error e1, .error e2 => e1 = e2
+    | _, _ => False := by
+  unfold run
+  rw [← hc]
+  cases hidx : keyCols.mapM (fun c => index c fr.columns) with
+  | none => simp
+  | some idx =>
+    simp only
+    exact ⟨trivial, (perm_invariant (keyAt idx) (cellOf fr.columns) fr.rows fr'.rows reqs h hp).map _⟩
+
+/-- **MIN and MAX are Python's `min` and `max`**: the model's `least` / `greatest` on integers are
+the walk `min(values)` / `max(values)` does with the comparison `<` of the values. -/
+theorem min_max_are_python_walks (vs : List Int) :
+    least vs = leastBy (fun a b => decide (a < b)) vs
+    ∧ greatest vs = leastBy (fun a b => decide (b < a)) vs :=
+  ⟨least_eq_leastBy vs, greatest_eq_leastBy vs⟩
+
+section
+variable {α : Type} (lt : α → α → Bool)
+
+/-- **What MIN / MAX demand of the values, 1.**  Over any strict partial order — whatever kind of
+value the column holds — Python's walk returns a member of the group with no member below it. -/
+theorem min_of_partial_order_is_minimal (hirr : ∀ a, lt a a = false)
+    (htr : ∀ a b c, lt a b = true → lt b c = true → lt a c = true) (vs : List α) (m : α)
+    (h : leastBy lt vs = some m) : m ∈ vs ∧ ∀ x ∈ vs, lt x m = false := by
+  cases vs with
+  | nil => simp [leastBy] at h
+  | cons v vs =>
+    simp only [leastBy, Option.some.injEq] at h
+    subst h
+    obtain ⟨h1, _, h3⟩ := foldl_leastBy_spec lt hirr htr vs v [] (by simp)
+    exact ⟨h1, h3⟩
+
+/-- **What MIN / MAX demand of the values, 2.**  When the comparison is moreover total on the values
+(numbers without NaN, texts, booleans, Decimals — not NaN, not values of different kinds) that member
+is unique and the result does not depend on the order of the rows.  Totality is needed: the example
+below is a float column with a NaN. -/
+theorem min_of_total_order_ignores_row_order (hirr : ∀ a, lt a a = false)
+    (htr : ∀ a b c, lt a b = true → lt b c = true → lt a c = true)
+    (htot : ∀ a b, a ≠ b → lt a b = true ∨ lt b a = true) {vs ws : List α} (hp : vs.Perm ws) :
+    leastBy lt vs = leastBy lt ws := by
+  cases hv : leastBy lt vs with
+  | none =>
+    cases vs with
+    | nil => rw [List.nil_perm.mp hp]; rfl
+    | cons v vs => simp [leastBy] at hv
+  | some m =>
+    cases hw : leastBy lt ws with
+    | none =>
+      cases ws with
+      | nil => rw [List.perm_nil.mp hp] at hv; simp [leastBy] at hv
+      | cons w ws => simp [leastBy] at hw
+    | some m' =>
+      obtain ⟨h1, h2⟩ := min_of_partial_order_is_minimal lt hirr htr vs m hv
+      obtain ⟨h1', h2'⟩ := min_of_partial_order_is_minimal lt hirr htr ws m' hw
+      congr 1
+      apply Classical.byContradiction
+      intro hne
+      rcases htot m m' hne with h | h
+      · rw [h2' m (hp.mem_iff.mp h1)] at h; exact absurd h (by simp)
+      · rw [h2 m' (hp.mem_iff.mpr h1')] at h; exact absurd h (by simp)
+end
+
+/-- A float column with a NaN (`none`; every comparison with it is false — a strict partial order
+that is not total): `min` depends on the order of the rows.  The property's "MIN, MAX as usually
+defined" and "does not depend on the order of the input rows" can therefore only be asked of value
+columns on which `<` is total; the harness keeps NaN out of the judged value columns and records
+what orso does with them (`outside-domain:…` in the evidence). -/
+example :
+    let lt : Option Nat → Option Nat → Bool := fun a b => match a, b with | some x, some y => x < y | _, _ => false
+    leastBy lt [none, some 1] = some none ∧ leastBy lt [some 1, none] = some (some 1) := by decide
+
+/-! ## The source, statement by statement
+
+`GroupByCode.source` is the program `harness/extractors/c12_code.py` reads from the AST of
+`orso/group_by.py` and `orso/dataframe.py` on every run (`Generated/GroupByCode.lean`);
+`GroupByCode.aggregateC`, `stepC`, `runCallsC`, `runCallsF` interpret it.  The theorems below are
+about *that* program: when a statement of the source changes in a way that breaks the property,
+the theorem that names the statement's job stops checking. -/
+section Source
+open GroupByCode GroupByIR
+
+/-- **The aggregator table of the source** (`AGGREGATORS` and the bodies of the five functions it
+names, group_by.py:24-46) computes the five folds of `fold_spec` on every list of non-null values:
+in particular COUNT of no values is 0, MIN / MAX / AVG / SUM of no values are null (not 0, no
+exception), and a sum that happens to be zero stays the number zero. -/
+theorem source_aggregators (f : Func) (vs : List Int) :
+    evalA (aggOf source f) (vs.map some) = AVal.ofAgg (fold f vs) := by
+  have h : aggOk f (aggOf source f) = true := by cases f <;> decide
+  exact aggOk_sound h vs
+
+/-- **Every requested column is collected once** (`collect_columns = …` in `aggregate`,
+group_by.py:127): the argument handed to `_map` is duplicate-free and names exactly the requested
+columns, however often a column is requested.  (Repair C12-F02; with `[col for _, col in
+aggregations]` this is false, `collect_all_counts_twice`.) -/
+theorem source_collects_each_column_once (reqs : List Req) :
+    (collectCols source.collect reqs).Nodup
+    ∧ ∀ c, c ∈ collectCols source.collect reqs ↔ c ∈ reqs.map (·.2) := by
+  have h : source.collect = .dedup := by decide
+  rw [h]
+  exact ⟨nodup_firstSeen _, fun c => mem_firstSeen⟩
+
+/-- **The collection loop registers the group before the null test** (group_by.py:128-132): on a
+null value the body of the loop touches `column_value_map[group_key]` and appends nothing; on any
+other value (zero included) it appends the value exactly once; `_map` yields a triple for every
+row and requested column whatever the value, and registers the group's key values in
+`_group_keys`.  (Repair C12-F03; decided by running the extracted body on the three kinds of value
+its tests can tell apart — `stepBody_ok` shows that this determines the body on every value.) -/
+theorem source_registers_before_null_test :
+    bodyOk source.body = true ∧ yieldOk source.yieldGuards = true ∧ source.registers = true := by
+  decide
+
+/-- **A group is identified by its key values** (`group_key = …` in `_map`, group_by.py:92):
+whatever the hash function, the identity `_map` computes is injective in the key.  (Repair C12-F01;
+false for `hash(tuple(…))`, `hash_identity_merges`.) -/
+theorem source_group_identity_injective {κ : Type} (h : κ → κ) :
+    Function.Injective (identOf h source.key) := by
+  have hk : source.key = .tuple := by decide
+  rw [hk]
+  intro a b hab
+  exact hab
+
+/-- **A lazily backed frame is materialised before it is walked** (`for record in self._dictset` in
+`_map`; `DataFrame.__iter__` calls `materialize`, which replaces a generator by a list). -/
+theorem source_iterates_materialised :
+    source.via = .frame ∧ source.iterMaterialises = true ∧ source.materializeMakesList = true := by
+  decide
+
+/-- **A result without groups still has its header** (`if not result_set:` in `aggregate`,
+`if not self._group_keys:` in `groups`, repair C12-F04): both branches are there and return a frame
+with the columns and no rows, instead of handing an empty list of dictionaries to `DataFrame`. -/
+theorem source_empty_frame_header :
+    source.aggEmptyHeader = true ∧ source.groupsEmptyHeader = true := by
+  decide
+
+/-- **The convenience wrappers ask for their own function**: `max` → `MAX`, `min` → `MIN`,
+`sum` → `SUM`, `avg` → `AVG` over the columns given, `count` → `COUNT(*)`. -/
+theorem source_wrappers :
+    ∀ w ∈ [("max", "MAX", ""), ("min", "MIN", ""), ("sum", "SUM", ""), ("count", "COUNT", "*"),
+           ("avg", "AVG", "")], w ∈ Gen.GroupByCode.wrappers := by
+  decide
+
+/-- **Nothing but `_group_keys` survives a call, and `_group_keys` belongs to the object**:
+`column_value_map` is created inside `aggregate` (a value map kept on the object would hand the
+values collected by one call to the next, `stale_value_map_counts_twice`), and `_group_keys` is
+created in `__init__`, one per `GroupBy` object. -/
+theorem source_state_between_calls :
+    source.freshValueMap = true ∧ source.registryPerObject = true := by
+  decide
+
+/-- The conditions of the refinement lemmas, for the program in the working tree. -/
+theorem source_good : Good source :=
+  { body := source_registers_before_null_test.1
+    yields := source_registers_before_null_test.2.1
+    registers := source_registers_before_null_test.2.2
+    cols := source_collects_each_column_once
+    aggs := source_aggregators
+    lazy := source_iterates_materialised
+    fresh := source_state_between_calls.1
+    perObject := source_state_between_calls.2 }
+
+/-- **`aggregate` as written is partition-and-fold.**  For every frame, key function, hash function,
+non-empty request list (repeats included) and every state of `_group_keys` left by earlier calls on
+the object: the statements of `_map` and `aggregate` in the working tree — key computation,
+registration, emission, de-duplicated collection, the loop body with its null test, the aggregator
+functions — return one entry per distinct key in first-occurrence order, each request folded over
+the non-null values of that key's rows. -/
+theorem source_aggregate_spec {ρ κ : Type} [DecidableEq κ] (h : κ → κ) (keyOf : ρ → κ)
+    (cell : ρ → String → Option Int) (st : ObjState κ κ)
+    (hst : Consistent (identOf h source.key) st.keys) (rows : List ρ) (reqs : List Req) (hne : reqs ≠ []) :
+    (aggregateC source (identOf h source.key) keyOf cell st rows reqs).2
+      = some ((reference keyOf cell rows reqs).map fun ka => (ka.1, ka.2.map AVal.ofAgg)) := by
+  rw [(aggregateC_ok source source_good.body source_good.yields source_good.registers source_good.fresh reqs
+    (source_good.cols reqs) source_good.aggs (source_group_identity_injective h) keyOf cell st hst rows).2,
+    aggregate_spec keyOf cell rows reqs hne]
+
+/-- **The `*` pseudo column is never null** (`"*" if column == -1 else record[column]`,
+group_by.py:104): the value `_map` yields for a requested column is the row's cell, and a non-null
+marker when the column is not in the frame — so `COUNT(*)` is the group size (`count_star`). -/
+theorem source_star_never_null (columns : List String) (r : List PyVal) (c : String) :
+    cellOfC source.value columns r c = cellOf columns r c
+    ∧ (index c columns = none → (cellOfC source.value columns r c).isSome) := by
+  have hv : source.value = .starIfMissing := by decide
+  rw [hv]
+  constructor
+  · unfold cellOfC cellOf
+    cases index c columns <;> rfl
+  · intro hc
+    unfold cellOfC
+    rw [hc]
+    rfl
+
+/-- **Labels.**  Every f-string of `aggregate` that names an aggregate column produces
+`FUNC(column)`. -/
+theorem source_label_format (q : Req) : ∀ fmt ∈ source.labels, labelC fmt q = label q := by
+  have hl : source.labels.all (· == stdLabel) = true := by decide
+  intro fmt hfmt
+  have : fmt = stdLabel := by simpa using List.all_eq_true.mp hl fmt hfmt
+  subst this
+  simp [labelC, stdLabel, label, String.join]
+
+/-- **Any sequence of calls on any number of `GroupBy` objects of one frame, lazily backed or
+materialised.**  `objs` are the key column lists of the objects `df.group_by(objs[g])` (all key
+columns in the frame, at positions `idxs[g]`), `calls` any list of (object, call) — `aggregate` with
+any request lists, `groups()`, in any order, repeats included.  Read from the source, every call
+returns exactly what `run` / `runGroups` return for that call alone on a fresh object of the
+materialised frame (`run_spec`: the partition-and-fold table laid out as labels then keys), and a
+frame without rows gives the header and no rows (repair C12-F04). -/
+theorem source_calls_spec (fr : Frame) (lazy : Bool) (objs : List (List String))
+    (idxs : List (List Nat)) (calls : List (Nat × Op))
+    (hidx : ∀ c ∈ calls, (objs.getD c.1 []).mapM (fun n => index n fr.columns) = some (idxs.getD c.1 [])) :
+    runCallsF source fr lazy objs idxs calls =
+      calls.map fun c =>
+        match c.2 with
+        | .aggregate reqs => toExcept (run fr (objs.getD c.1 []) reqs)
+        | .groups => toExcept (runGroups fr (objs.getD c.1 [])) := by
+  unfold runCallsF
+  have hsrc : ((if lazy = true then Source.gen fr.rows false else Source.list fr.rows) = Source.list fr.rows
+      ∨ (if lazy = true then Source.gen fr.rows false else Source.list fr.rows) = Source.gen fr.rows false) := by
+    cases lazy
+    · exact Or.inl rfl
+    · exact Or.inr rfl
+  rw [runCallsC_ok source_good (source_group_identity_injective pyHashKey) _ _ fr.rows calls _ _ hsrc
+    (fun g => ⟨fun e he => by simp [ObjState.empty] at he, Or.inl rfl⟩)]
+  rw [List.zip_map_right, List.map_map]
+  have hzip : ∀ (l : List (Nat × Op)), l.zip l = l.map fun c => (c, c) := by
+    intro l
+    induction l with
+    | nil => rfl
+    | cons x l ih => simp [ih]
+  rw [hzip, List.map_map]
+  apply List.map_congr_left
+  intro c hc
+  have hcell : cellOfC source.value fr.columns = cellOf fr.columns := by
+    funext r col
+    exact (source_star_never_null fr.columns r col).1
+  simp only [Function.comp, Prod.map, id, hcell]
+  have hi := hidx c hc
+  obtain ⟨g, op⟩ := c
+  cases op with
+  | aggregate reqs =>
+    simp only [stepS]
+    rw [render_aggregate source_empty_frame_header.1]
+    simp only [run, hi, toExcept]
+  | groups =>
+    have hg := sequence_spec (keyAt (idxs.getD g [])) (cellOf fr.columns) fr.rows .groups
+    simp only at hg
+    rw [hg, render_groups source_empty_frame_header.2]
+    simp only [runGroups, hi, toExcept, groups_spec]
+
+/-- **Lazily backed or materialised makes no difference**, for any sequence of calls on any number
+of objects of the frame. -/
+theorem source_lazy_as_materialised (fr : Frame) (objs : List (List String)) (idxs : List (List Nat))
+    (calls : List (Nat × Op))
+    (hidx : ∀ c ∈ calls, (objs.getD c.1 []).mapM (fun n => index n fr.columns) = some (idxs.getD c.1 [])) :
+    runCallsF source fr true objs idxs calls = runCallsF source fr false objs idxs calls := by
+  rw [source_calls_spec fr true objs idxs calls hidx, source_calls_spec fr false objs idxs calls hidx]
+
+/-! ### Tightness: undoing one repair at a time in the repaired program (`GroupByCode.repaired`,
+written out in `Lemmas/GroupByCode.lean`, not read from the tree) makes the interpreter reproduce the
+defect — so each condition above is needed, and the interpreter means what the code means. -/
+
+/-- C12-F01 undone (`hash(tuple(…))`): the keys `-1` and `-2` share one group; the condition
+`source_group_identity_injective` fails for it. -/
+example :
+    runCallsF { repaired with key := .hashTuple } { columns := ["k", "v"], rows := [[.int (-1), .int 1], [.int (-2), .int 10]] }
+        false [["k"]] [[0]] [(0, .aggregate [(.sum, "v")])]
+      = [.ok (["SUM(v)", "k"], [[.int 11, .int (-1)]])]
+    ∧ ¬ Function.Injective (identOf pyHashKey (KeyExpr.hashTuple) : List PyVal → List PyVal) := by
+  refine ⟨by decide, fun h => ?_⟩
+  have := @h [.int (-1)] [.int (-2)] (by decide)
+  exact absurd this (by decide)
+
+/-- C12-F02 undone (`[col for _, col in aggregations]`): a column requested twice is collected
+twice, SUM doubles; `source_collects_each_column_once` fails for it. -/
+example :
+    runCallsF { repaired with collect := .all } { columns := ["k", "v"], rows := [[.str "a", .int 1], [.str "a", .int 10]] }
+        false [["k"]] [[0]] [(0, .aggregate [(.sum, "v"), (.max, "v")])]
+      = [.ok (["SUM(v)", "MAX(v)", "k"], [[.int 22, .int 10, .str "a"]])]
+    ∧ ¬ (collectCols .all [(.sum, "v"), (.max, "v")]).Nodup := by
+  decide
+
+/-- C12-F03 undone, first half (append — and thereby register — only non-null values): a group whose
+requested values are all null has no row; `bodyOk` is false. -/
+example :
+    runCallsF { repaired with body := [([.notNone], .append)] }
+        { columns := ["k", "v"], rows := [[.str "a", .none], [.str "b", .int 10]] }
+        false [["k"]] [[0]] [(0, .aggregate [(.sum, "v")])]
+      = [.ok (["SUM(v)", "k"], [[.int 10, .str "b"]])]
+    ∧ bodyOk [([.notNone], .append)] = false := by
+  decide
+
+/-- C12-F03 undone, second half (`min(values)`, `sum(values)` without the empty case): an all-null
+column next to a non-null one raises `ValueError`, and `SUM` of no values is 0; `aggOk` refuses both. -/
+example :
+    runCallsF { repaired with aggs := [("MAX", .maxE), ("SUM", .sum)] }
+        { columns := ["k", "v", "w"], rows := [[.str "a", .none, .int 1]] }
+        false [["k"]] [[0]] [(0, .aggregate [(.max, "v"), (.sum, "w")]), (0, .aggregate [(.sum, "v")])]
+      = [.error "ValueError", .ok (["SUM(v)", "k"], [[.int 0, .str "a"]])]
+    ∧ aggOk .max .maxE = false ∧ aggOk .sum .sum = false
+    ∧ aggOk .sum (.orElse .sum .none) = false ∧ aggOk .max (.maxD (.lit 0)) = false := by
+  decide
+
+/-- C12-F04 undone (no branch for a result without groups): `StopIteration` from `DataFrame`. -/
+example :
+    runCallsF { repaired with aggEmptyHeader := false, groupsEmptyHeader := false }
+        { columns := ["k", "v"], rows := [] } false [["k"]] [[0]] [(0, .aggregate [(.sum, "v")]), (0, .groups)]
+      = [.error "StopIteration", .error "StopIteration"] := by
+  decide
+
+/-- `_map` walking the backing store itself (or `__iter__` not materialising): on a lazily backed
+frame the second call — on any object — sees no rows. -/
+example :
+    runCallsF { repaired with via := .backing } { columns := ["k", "v"], rows := [[.str "a", .int 1]] }
+        true [["k"], ["k"]] [[0], [0]] [(0, .aggregate [(.sum, "v")]), (1, .aggregate [(.sum, "v")])]
+      = [.ok (["SUM(v)", "k"], [[.int 1, .str "a"]]), .ok (["SUM(v)", "k"], [])] := by
+  decide
+
+/-- The value map kept on the object (`column_value_map = self._group_values`): the second `SUM` on
+the same object counts the values twice (`stale_value_map_counts_twice`). -/
+example :
+    runCallsF { repaired with freshValueMap := false } { columns := ["k", "v"], rows := [[.str "a", .int 3]] }
+        false [["k"]] [[0]] [(0, .aggregate [(.sum, "v")]), (0, .aggregate [(.sum, "v")])]
+      = [.ok (["SUM(v)", "k"], [[.int 3, .str "a"]]), .ok (["SUM(v)", "k"], [[.int 6, .str "a"]])] := by
+  decide
+
+/-- `_group_keys` shared by all objects of the class: `groups()` of an object that groups by `j`
+also returns the keys registered by the object that groups by `k`. -/
+example :
+    runCallsF { repaired with registryPerObject := false }
+        { columns := ["k", "j"], rows := [[.int 1, .str "a"]] }
+        false [["k"], ["j"]] [[0], [1]] [(0, .groups), (1, .groups)]
+      = [.ok (["k"], [[.int 1]]), .ok (["j"], [[.int 1], [.str "a"]])] := by
+  decide
+
+/-- The repaired program passes every condition (the conditions are satisfiable). -/
+example :
+    bodyOk repaired.body = true ∧ yieldOk repaired.yieldGuards = true
+    ∧ (∀ f ∈ Func.all, aggOk f (aggOf repaired f) = true) := by
+  decide
+
+end Source
 
 end C12
